@@ -35,7 +35,7 @@ STUB = ["choice of the running scenario thread (baton scheduler, line events in 
 ASSUMPTIONS = ["population changes in the two round hooks, plus deletions from inside act of the acting agent itself or of an agent created before it (both have already acted), and creations from inside act: the newcomer is a live agent and is expected to handle and act last in that very step, as the pinned tree does",
                "harness subclasses (models/abm_agents.py) run atomically between pre-emption points"]
 FAULT_KINDS = ["preemption", "population_change_in_hook", "agent_deleted_inside_act"]
-PROBES = ["progress_widget", "model_run_again_with_other_run_spec", "deletion_inside_act", "creation_inside_act", "zero_stop_time", "negative_start", "decimal_dt", "empty_population", "collect_off", "threads_interleaved", "driven_steps"]
+PROBES = ["session_over_abm_managers", "session_over_several_abm_managers", "progress_widget", "model_run_again_with_other_run_spec", "deletion_inside_act", "creation_inside_act", "zero_stop_time", "negative_start", "decimal_dt", "empty_population", "collect_off", "threads_interleaved", "driven_steps"]
 EXHAUSTIVE = {"quick": False, "thorough": False}
 
 
@@ -62,7 +62,19 @@ class _quiet:
 
 def generate(spec):
     rng = random.Random(spec["seed"])
-    mode = rng.choice(["run", "run", "run_twice", "scheduler_steps", "model_run_step", "bptk_threads", "bptk_threads"])
+    mode = rng.choice(["run", "run", "run_twice", "scheduler_steps", "model_run_step", "bptk_threads", "bptk_threads", "bptk_session"])
+    if mode == "bptk_session":
+        # externally driven steps through bptk: one session over one or two agent-based managers that both have a
+        # scenario of the same name; bptk.run_step drives every scenario once per step
+        scs = []
+        stop = rng.choice([1, 2, 3])
+        for _ in range(rng.choice([1, 2, 2, 3])):
+            sc = W.gen_scenario(rng, small=True)
+            sc["start"], sc["stop"], sc["dt"] = 0, stop, 1.0
+            for key in ("pop", "states", "props", "sends", "acts"):
+                sc[key] = [x for x in sc.get(key, []) if x["k"] <= stop + 1]
+            scs.append(sc)
+        return {"property": PROPERTY, "mode": mode, "collect": True, "scenarios": scs, "sched": None, "widget": False}
     collect = rng.random() < 0.7
     if mode == "bptk_threads":
         scs = [W.gen_scenario(rng, small=True, delayed=rng.random() < 0.6) for _ in range(rng.choice([2, 2, 3]))]
@@ -101,6 +113,87 @@ def _cmp(res, name, got, exp, extra):
     return False
 
 
+def _session_world(scs, names):
+    """one bptk with one agent-based manager per scenario (names[n]), each holding a scenario called "s0" """
+    import BPTK_Py
+    from worlds.server_world import configure_bptk_globals
+    from models.abm_agents import make_model
+    configure_bptk_globals()
+    b = BPTK_Py.bptk()
+    models = []
+    for n, sc in enumerate(scs):
+        base = make_model(0, 1, 1.0, name="base%d" % n)
+        sdict = {"s0": {"runspecs": {"starttime": sc["start"], "stoptime": sc["stop"], "dt": sc["dt"]}, "properties": {},
+                        "agents": [{"name": t, "count": c} for t, c in sc["init"]]}}
+        b.register_scenario_manager({names[n]: {"type": "abm", "model": base, "scenarios": sdict}})
+    for n, sc in enumerate(scs):
+        m = b.get_scenario(names[n], "s0")
+        m.world.calls = []
+        m.world.k = 0
+        W.load_script(m.world, sc, uid_offset=100000 * (n + 1))
+        models.append(m)
+    return b, models
+
+
+def _drive_session(b, names, nmax):
+    b.begin_session(scenarios=["s0"], scenario_managers=list(names), agents=["a", "b"], agent_states=["idle"])
+    outs = []
+    for _ in range(nmax + 3):
+        o = b.run_step()
+        if o is None or (isinstance(o, dict) and "msg" in o):
+            break
+        outs.append(o)
+    return outs
+
+
+def _execute_session(case, res, log):
+    scs = copy.deepcopy(case["scenarios"])
+    stop = min(sc["stop"] for sc in scs)
+    for sc in scs:          # one session, one clock: (a shrunk case may carry different stop times)
+        sc["start"], sc["stop"], sc["dt"] = 0, stop, 1.0
+    names = ["smAbm%d" % n for n in range(len(scs))]
+    res.probe("driven_steps")
+    res.probe("session_over_abm_managers")
+    if len(scs) > 1:
+        res.probe("session_over_several_abm_managers")
+    with patches.installed(threads="serial", global_thread=True):
+        try:
+            b, models = _session_world(scs, names)
+            outs = _drive_session(b, names, scs[0]["stop"] + 1)
+        except Exception as e:
+            res.violate("C12.run-raised", {"mode": "bptk_session", "exception": type(e).__name__, "message": str(e)[:100]})
+            return
+        res.sim_units = len(outs)
+        for n, (sc, m) in enumerate(zip(scs, models)):
+            calls = list(m.world.calls)
+            log.add("calls", n, calls)
+            # every step exactly once, in increasing time order: begin-round callbacks carry the time
+            times = [c[1] for c in calls if c[0] == "begin"]
+            want = [float(t) for t in range(sc["start"], sc["stop"] + 1)]
+            if times != want:
+                res.violate("C12.call-log-differs", {"scenario": names[n], "mode": "bptk_session", "begin_round_times": times[:8],
+                                                     "expected": want[:8], "managers_in_session": len(scs)})
+                return
+            # and the whole call log is what the same scenario logs in a session of its own
+            try:
+                b1, ms1 = _session_world([sc], [names[n]])
+                _drive_session(b1, [names[n]], sc["stop"] + 1)
+            except Exception as e:
+                res.violate("C12.run-raised", {"mode": "bptk_session(solo)", "exception": type(e).__name__, "message": str(e)[:100]})
+                return
+            if not _cmp(res, names[n], calls, list(ms1[0].world.calls), {"mode": "bptk_session", "managers_in_session": len(scs)}):
+                return
+            try:
+                b1.destroy()
+            except Exception:
+                pass
+        try:
+            b.destroy()
+        except Exception:
+            pass
+    res.nontrivial = len(outs) >= 2
+
+
 def execute(case):
     log = EventLog()
     res = RunResult()
@@ -128,6 +221,10 @@ def execute(case):
                 res.probe("creation_inside_act")
     if not collect:
         res.probe("collect_off")
+    if mode == "bptk_session":
+        _execute_session(case, res, log)
+        res.digest = log.digest()
+        return res
     if mode != "bptk_threads":
         sc = scs[0]
         m = W.build_direct(sc)
